@@ -20,9 +20,9 @@ import (
 // structure of the source, the set of varint values a reader rejects.
 
 type rejectPred struct {
-	fn     string       // function name
-	pos    token.Pos    // position of the if
-	conds  []ast.Expr   // conjunction: enclosing conditions + own condition
+	fn     string     // function name
+	pos    token.Pos  // position of the if
+	conds  []ast.Expr // conjunction: enclosing conditions + own condition
 	defs   map[types.Object]ast.Expr
 	valObj types.Object // the decoded varint
 	errs   []string     // error identifiers mentioned by the return
@@ -40,11 +40,11 @@ type pval struct {
 }
 
 type pevalCtx struct {
-	pk    *packages.Package
-	val   types.Object
-	probe *big.Int
-	defs  map[types.Object]ast.Expr
-	unsup string
+	pk     *packages.Package
+	val    types.Object
+	probe  *big.Int
+	defs   map[types.Object]ast.Expr
+	unsup  string
 	consts []*big.Int
 }
 
@@ -493,10 +493,10 @@ var rejectErrNames = map[string]bool{"ErrValueOverflow": true, "ErrInvalidFieldT
 var varintLeafs = map[string]bool{"DecodeVarint": true, "DecodeZigZag32": true, "DecodeZigZag64": true}
 
 type rejectResult struct {
-	row    readerRow
-	preds  []*rejectPred
-	pk     *packages.Package
-	fi     *core.FuncInfo
+	row   readerRow
+	preds []*rejectPred
+	pk    *packages.Package
+	fi    *core.FuncInfo
 }
 
 // evalRejects runs rules (i) no conforming value rejected and (ii) sibling agreement.
